@@ -17,6 +17,7 @@ func init() {
 		Explanation: "Decided (structural necessary conditions, all cipherfs.Cipher implementers discovered by type, and encryptfs.EncryptFS): R1 every slice/index of stored (attacker-controlled) bytes on the decrypt path with a non-zero bound is dominated by a length comparison of that very slice implying the bound, whose failing edge returns an error (no panic on truncated data); R2 the nonce of every AEAD.Seal is a buffer allocated in that call and filled from crypto/rand with the error checked on the path to Seal; R3 the key material stored in the filespace is a fresh buffer into which Secret, Salt and (on the HostOnly edge) the host id flow, a child view carries the same key and cipher, and the host id accessor returns the machine-derived value; R4 plaintext handed to WriteFile / the stream writer reaches the base filespace only as the result of Cipher.Encrypt / AEAD.Seal / EncryptWriter; R5 ReadFile/Reader return only what Cipher.Decrypt/DecryptReader produced, and Decrypt returns success only with AEAD.Open's own result; R6 the 4-byte cipher tag: written length = read length, same byte order, unknown tag -> error before dispatch; R7 the 11 name-space operations of EncryptFS are pure delegations; R8 stream order: seal -> write -> close with every error propagated, read-all -> close -> open, and a stream handed to a decrypting reader is closed on every failing path (ownership); R9 stream writers keep a copy of each chunk, never the caller's buffer. " +
 			"R6 also: the in-memory cipher key type keeps every byte of the 4-byte tag (no narrowing conversion between header and table lookup). " +
 			"Added in round 5: R3 also covers every other store into the key field: the parent's key itself (shared, read-only) or a fresh buffer — never an append/slice onto another filespace's key material, which rewrites that key in place. " +
+			"Added in round 6: R9 also requires that every method of a stream writer other than Close that sets the buffer field extends what is already there (a ReadFrom fast path that replaces the buffer drops the bytes written before). " +
 			"NOT decided: round-trip equality for all plaintexts, ciphertext indistinguishability, AEAD correctness (trusted: crypto/cipher), behaviour of user-supplied ciphers.",
 	})
 }
